@@ -1,6 +1,6 @@
 """C06 Execution and code generation stay inside their buffers for every program."""
 import astq
-from rules import cgsize, decode, driver, dsinit, membound, sshash, jitcross, rv64
+from rules import cgsize, decode, driver, dsinit, membound, sshash, jitcross, rv64, aes
 
 LEVEL = 'other'
 TECHNIQUE = 'max-plus abstract interpretation of the x86 emitter against the assembled fragment sizes, mask-set and typestate rules on every scratchpad address of the interpreter, interval arithmetic on dataset/cache indices, constant agreement C++ vs .S'
@@ -28,3 +28,5 @@ def run(ctx, R):
     jitcross.rule_cgsize_a64(ctx, R, F)
     rv64.rule_cgsize(ctx, R, F)
     rv64.rule_rcppool(ctx, R, F)
+    aes.rule_cover(ctx, R, F)
+    driver.rule_bind_excl(ctx, R)
